@@ -490,6 +490,13 @@ func filterGetdigit(in *Value, param *Value) (*Value, *Error) {
 	if i <= 0 || i > l {
 		return in, nil
 	}
+	// the original value for input that is not a whole number (Django), and
+	// where the position asked for holds the sign
+	for idx, c := range []byte(in.String()) {
+		if (c < '0' || c > '9') && !(c == '-' && idx == 0 && idx != l-i) {
+			return in, nil
+		}
+	}
 	return AsValue(in.String()[l-i] - 48), nil
 }
 
